@@ -328,7 +328,7 @@ func genGen(r *rand.Rand, n int, emit func(core.Case)) {
 		var steps []any
 		for k, m := 0, 6+r.IntN(7); k < m; k++ { // the same request many times: Go randomises every map iteration anew
 			mode := "in"
-			if r.IntN(4) == 0 {
+			if r.IntN(6) == 0 {
 				mode = "fresh"
 			}
 			steps = append(steps, core.Case{"mode": mode, "perm": r.IntN(3)})
